@@ -14,7 +14,9 @@ import (
 	"crypto/aes"
 	"crypto/cipher"
 	"crypto/sha256"
+	"crypto/sha512"
 	"fmt"
+	"hash"
 	"io"
 	"math/big"
 	"strings"
@@ -23,11 +25,13 @@ import (
 	"go.dedis.ch/kyber/v4/encrypt/ecies"
 	"go.dedis.ch/kyber/v4/encrypt/ibe"
 	"go.dedis.ch/kyber/v4/group/edwards25519"
+	"go.dedis.ch/kyber/v4/group/edwards25519vartime"
 	"go.dedis.ch/kyber/v4/group/p256"
 	"go.dedis.ch/kyber/v4/pairing"
 	circl "go.dedis.ch/kyber/v4/pairing/bls12381/circl"
 	gnark "go.dedis.ch/kyber/v4/pairing/bls12381/gnark"
 	kilic "go.dedis.ch/kyber/v4/pairing/bls12381/kilic"
+	"go.dedis.ch/kyber/v4/pairing/bn254"
 	"go.dedis.ch/kyber/v4/pairing/bn256"
 	"go.dedis.ch/kyber/v4/sign/anon"
 	"go.dedis.ch/kyber/v4/util/random"
@@ -181,6 +185,7 @@ func eciesGroups() []eciesSetting {
 		{"ed25519", edwards25519.NewBlakeSHA256Ed25519()},
 		{"p256", p256.NewBlakeSHA256P256()},
 		{"bn256.G1", bn256.NewSuiteG1()},
+		{"bn254.G1", bn254.NewSuiteG1()},
 		{"bls12381.kilic.G1", kilic.NewBLS12381Suite().G1()},
 		{"dlog61", vh.NewDlogGroup(vh.Q61, nil)},
 	}
@@ -271,6 +276,117 @@ func eciesOracle(r *vh.Rng, st eciesSetting, mlen, nflips int, allTrunc bool) {
 			rep.Fail("ecies.Decrypt/truncated-accepted/"+st.name, "a truncated ciphertext was decrypted without error", d2)
 		}
 		rep.Dist("oracle:ecies:truncation")
+	}
+}
+
+// eciesAllGroups: every group instance the library ships (plus the suites' sub-groups).
+func eciesAllGroups() []eciesSetting {
+	b4, b6 := bn254.NewSuite(), bn256.NewSuite()
+	kl, cl, gn := kilic.NewBLS12381Suite(), circl.NewSuiteBLS12381(), gnark.NewSuiteBLS12381()
+	return []eciesSetting{
+		{"ed25519", edwards25519.NewBlakeSHA256Ed25519()},
+		{"ed25519vartime", edwards25519vartime.NewBlakeSHA256Ed25519(false)},
+		{"ed25519vartime.full", edwards25519vartime.NewBlakeSHA256Ed25519(true)},
+		{"p256", p256.NewBlakeSHA256P256()},
+		{"qr512", p256.NewBlakeSHA256QR512()},
+		{"bn256.NewSuiteG1", bn256.NewSuiteG1()}, {"bn256.NewSuiteG2", bn256.NewSuiteG2()}, {"bn256.NewSuiteGT", bn256.NewSuiteGT()},
+		{"bn256.G1()", b6.G1()}, {"bn256.G2()", b6.G2()}, {"bn256.GT()", b6.GT()}, {"bn256.NewSuiteBn256", bn256.NewSuiteBn256()},
+		{"bn254.NewSuiteG1", bn254.NewSuiteG1()}, {"bn254.NewSuiteG2", bn254.NewSuiteG2()}, {"bn254.NewSuiteGT", bn254.NewSuiteGT()},
+		{"bn254.G1()", b4.G1()}, {"bn254.G2()", b4.G2()}, {"bn254.GT()", b4.GT()}, {"bn254.NewSuiteBn254", bn254.NewSuiteBn254()},
+		{"bls12381.kilic.G1", kl.G1()}, {"bls12381.kilic.G2", kl.G2()}, {"bls12381.kilic.GT", kl.GT()}, {"bls12381.kilic.adapter", kilic.NewSuiteBLS12381()},
+		{"bls12381.circl.G1", cl.G1()}, {"bls12381.circl.G2", cl.G2()}, {"bls12381.circl.GT", cl.GT()}, {"bls12381.circl.adapter", cl},
+		{"bls12381.gnark.G1", gn.G1()}, {"bls12381.gnark.G2", gn.G2()}, {"bls12381.gnark.GT", gn.GT()}, {"bls12381.gnark.adapter", gn},
+		{"dlog61", vh.NewDlogGroup(vh.Q61, nil)},
+	}
+}
+
+func unsupportedPanic(msg string) bool {
+	m := strings.ToLower(msg)
+	return strings.Contains(m, "unsupported") || strings.Contains(m, "not supported") || strings.Contains(m, "not implemented") || strings.Contains(m, "unimplemented")
+}
+
+// eciesHashOracle: round trips over one group for every way of naming the hash
+// (nil = the documented default SHA-256 on BOTH sides, explicit hashes, the
+// group's own hash when it has one); a ciphertext made with another hash than
+// the one given to Decrypt must be refused.
+func eciesHashOracle(r *vh.Rng, st eciesSetting) {
+	g := st.g
+	var x kyber.Scalar
+	var X kyber.Point
+	if p, pm := vh.Try(func() {
+		x = g.Scalar().Pick(random.New())
+		X = g.Point().Mul(x, nil)
+		b, err := X.MarshalBinary()
+		if err != nil {
+			panic("unsupported: " + err.Error())
+		}
+		if len(b) != g.PointLen() {
+			panic(fmt.Sprintf("unsupported: PointLen %d but encodings of %d bytes", g.PointLen(), len(b)))
+		}
+		if err := g.Point().UnmarshalBinary(b); err != nil {
+			panic("unsupported: " + err.Error())
+		}
+	}); p {
+		rep.Dist("skip:ecies-group:" + st.name)
+		rep.Note("ecies over " + st.name + " skipped: " + pm)
+		return
+	}
+	type hmode struct {
+		name     string
+		enc, dec func() hash.Hash
+		ok       bool
+	}
+	modes := []hmode{
+		{"nil/nil", nil, nil, true},
+		{"sha256/nil", sha256.New, nil, true},
+		{"nil/sha256", nil, sha256.New, true},
+		{"sha256/sha256", sha256.New, sha256.New, true},
+		{"sha512/sha512", sha512.New, sha512.New, true},
+		{"sha512/nil", sha512.New, nil, false},
+	}
+	if hf, ok := g.(kyber.HashFactory); ok {
+		modes = append(modes, hmode{"group-hash/group-hash", hf.Hash, hf.Hash, true})
+	}
+	for k, md := range modes {
+		mlen := []int{33, 0, 200, 16, 64, 1, 100}[k%7]
+		msg := msgOf(r, mlen)
+		xb, _ := x.MarshalBinary()
+		desc := map[string]interface{}{"scheme": "ecies", "group": st.name, "hash_encrypt/hash_decrypt": md.name, "private": vh.Hex(xb), "msg": vh.Hex(msg)}
+		var ct, m2 []byte
+		var err error
+		p, pm := vh.Try(func() { ct, err = ecies.Encrypt(g, X, cp(msg), md.enc) })
+		if p && unsupportedPanic(pm) {
+			rep.Dist("skip:ecies-group:" + st.name)
+			rep.Note("ecies over " + st.name + " skipped: " + pm)
+			return
+		}
+		rep.Count(fmt.Sprintf("ecies-hash %s %s %x", st.name, md.name, msg), true)
+		rep.Dist("oracle:ecies-hash:" + st.name)
+		rep.Dist("hash:ecies:" + md.name)
+		if p || err != nil {
+			desc["err"] = fmt.Sprint(pm, err)
+			rep.Fail("ecies.Encrypt/failed/"+st.name, "ecies.Encrypt failed or panicked", desc)
+			return
+		}
+		desc["ciphertext"] = vh.Hex(ct)
+		in := cp(ct)
+		p, pm = vh.Try(func() { m2, err = ecies.Decrypt(g, x, in, md.dec) })
+		if p {
+			desc["panic"] = pm
+			rep.Fail("ecies.Decrypt/panic/"+st.name, "ecies.Decrypt panicked", desc)
+			continue
+		}
+		if md.ok && (err != nil || !bytes.Equal(m2, msg)) {
+			desc["got"] = fmt.Sprintf("%x / %v", m2, err)
+			rep.Fail("ecies.roundtrip/hash="+md.name+"/"+st.name, "Decrypt(Encrypt(m)) != m (nil hash means SHA-256 on both sides)", desc)
+		}
+		if !md.ok && err == nil {
+			desc["got"] = vh.Hex(m2)
+			rep.Fail("ecies.Decrypt/other-hash-accepted/"+st.name, "a ciphertext made with another KDF hash was decrypted", desc)
+		}
+		if !bytes.Equal(in, ct) {
+			rep.Fail("ecies.Decrypt/input-mutated/"+st.name, "ecies.Decrypt changed the caller's ciphertext buffer", desc)
+		}
 	}
 }
 
@@ -918,8 +1034,23 @@ func anonCases(r *vh.Rng, n int) {
 		var privs []*big.Int
 		var set anon.Set
 		var setZ []*big.Int
+		// every second block of six cases uses sets with REPEATED keys (adjacent, non-adjacent, all equal)
+		var pat []int
+		if (i/6)%2 == 1 {
+			pat = [][]int{nil, {0, 0}, {1, 0, 0}, {0, 1, 1, 0}, {2, 2, 2, 2, 2}, {0, 1, 0, 1, 2, 2}}[nk-1]
+		}
+		rep.Dist("keys:anon-case:" + patName(pat))
+		keyOf := map[int]*big.Int{}
 		for k := 0; k < nk; k++ {
-			v := r.EdgeScalar(vh.Q61)
+			kid := k
+			if pat != nil {
+				kid = pat[k]
+			}
+			v, ok := keyOf[kid]
+			if !ok {
+				v = r.EdgeScalar(vh.Q61)
+				keyOf[kid] = v
+			}
 			privs = append(privs, v)
 			set = append(set, s.PointOf(v))
 			setZ = append(setZ, v)
@@ -1044,17 +1175,41 @@ type anonSetting struct {
 	s    anon.Suite
 }
 
+// keyPattern, when set, makes anonOracle build its anonymity set with REPEATED keys:
+// position k holds key number keyPattern[k] (e.g. {0,0}, {1,0,0}, {0,1,0}, {2,2,2,2,2}).
+var keyPattern []int
+
+func patName(p []int) string {
+	if p == nil {
+		return "distinct"
+	}
+	return strings.Trim(strings.ReplaceAll(fmt.Sprint(p), " ", ""), "[]")
+}
+
 func anonOracle(r *vh.Rng, st anonSetting, nk, mlen, nflips int, allTrunc bool) {
 	s := st.s
 	var privs []kyber.Scalar
 	var set anon.Set
-	for k := 0; k < nk; k++ {
-		x := s.Scalar().Pick(random.New())
-		privs = append(privs, x)
-		set = append(set, s.Point().Mul(x, nil))
+	if keyPattern != nil {
+		nk = len(keyPattern)
 	}
+	distinct := map[int]kyber.Scalar{}
+	for k := 0; k < nk; k++ {
+		kid := k
+		if keyPattern != nil {
+			kid = keyPattern[k]
+		}
+		x, ok := distinct[kid]
+		if !ok {
+			x = s.Scalar().Pick(random.New())
+			distinct[kid] = x
+		}
+		privs = append(privs, x)
+		set = append(set, s.Point().Mul(x, nil)) // a separate point object per position
+	}
+	rep.Dist("keys:anon-oracle:" + patName(keyPattern))
 	msg := msgOf(r, mlen)
-	desc := map[string]interface{}{"scheme": "anon", "suite": st.name, "set_size": nk, "msglen": mlen, "msg": vh.Hex(msg)}
+	desc := map[string]interface{}{"scheme": "anon", "suite": st.name, "set_size": nk, "key_pattern": patName(keyPattern), "msglen": mlen, "msg": vh.Hex(msg)}
 	var pk []string
 	for _, x := range privs {
 		b, _ := x.MarshalBinary()
@@ -1127,7 +1282,7 @@ func anonOracle(r *vh.Rng, st anonSetting, nk, mlen, nflips int, allTrunc bool) 
 	if m3, err, pk := run(ct, 0, mine, s.Scalar().Pick(random.New()), map[string]interface{}{"base": desc, "mine": mine, "key": "outsider"}); !pk && err == nil {
 		rep.Fail("anon.Decrypt/wrong-key-accepted/"+st.name, "decryption with a key outside the set returned a plaintext", map[string]interface{}{"base": desc, "got": vh.Hex(m3)})
 	}
-	if nk > 1 {
+	if nk > 1 && !privs[mine].Equal(privs[(mine+1)%nk]) {
 		if m3, err, pk := run(ct, 0, (mine+1)%nk, privs[mine], map[string]interface{}{"base": desc, "mine": (mine + 1) % nk, "key_of": mine}); !pk && err == nil {
 			rep.Fail("anon.Decrypt/wrong-key-accepted/"+st.name, "decryption with a key at the wrong index returned a plaintext", map[string]interface{}{"base": desc, "got": vh.Hex(m3)})
 		}
@@ -1600,6 +1755,11 @@ func main() {
 			}
 		}
 	}
+	for _, st := range eciesAllGroups() {
+		for k := 0; k < scale; k++ {
+			eciesHashOracle(ro.Fork(), st)
+		}
+	}
 	anons := []anonSetting{{"ed25519", edwards25519.NewBlakeSHA256Ed25519()}, {"dlog61", vh.NewDlogGroup(vh.Q61, nil)}}
 	for _, st := range anons {
 		full := opts.Thorough || opts.Search
@@ -1634,6 +1794,17 @@ func main() {
 		}
 		for k := 0; k < 4*scale; k++ {
 			anonOracle(ro.Fork(), st, 1+ro.Intn(6), ro.Intn(4097), 2, false)
+		}
+		// anonymity sets with repeated keys, decrypting at EVERY index
+		for _, pat := range [][]int{{0, 0}, {1, 0, 0}, {0, 0, 1}, {0, 1, 0}, {2, 2, 2, 2, 2}, {0, 1, 1, 0}, {0, 1, 0, 1, 2, 2}, {0, 0, 0, 1, 1, 1}} {
+			keyPattern = pat
+			for _, l := range []int{0, 17, 100} {
+				if !full && l == 100 && len(pat) > 3 {
+					continue
+				}
+				anonOracle(ro.Fork(), st, len(pat), l, 2, l == 0)
+			}
+			keyPattern = nil
 		}
 	}
 
